@@ -10,10 +10,9 @@ descendants == its views in the full database).
 from __future__ import annotations
 
 import copy
-import itertools
 import json
 import random
-from typing import Any, Dict, Iterable, List, Optional, Sequence, Set, Tuple
+from typing import Any, Dict, List, Optional, Sequence, Set, Tuple
 
 from .. import common
 from .. import layergen as lg
@@ -34,9 +33,9 @@ RULE = ("hierarchy shapes: every multiset of <= 4 layers over {PROTOCOL, FUNCTIO
         "twins); random NOT-INHERITED-DIAG-COMMS/-DOPS/-TABLES/-GLOBAL-NEG-RESPONSES/-VARIABLES "
         "subsets per PARENT-REF (names of the own and of foreign exclusion classes); "
         "equal-priority clashes are repaired by exclusion / local override / removal, except in "
-        "about a third of the clashing databases where exactly one is kept.  Distinct = distinct description; "
-        "non-trivial = at least one inherited, excluded or clashing object")
-MIN_EVALS = {"quick": 500000, "thorough": 20000000}
+        "about a third of the clashing databases where exactly one is kept.  Distinct = distinct "
+        "description; non-trivial = at least one inherited, excluded or clashing object")
+MIN_EVALS = {"quick": 500000, "thorough": 8000000}
 ASSUMPTIONS = [
     "parent priority ECU-SHARED-DATA > ECU-VARIANT > BASE-VARIANT > FUNCTIONAL-GROUP > PROTOCOL, "
     "taken from the direct parent an object is inherited through",
@@ -566,8 +565,8 @@ def run(tier: str, col: common.Collector) -> None:
         work = [(s, 2) for s in small] + [(s, 1) for s in four]
         nrand, iso = 45, "one"
     else:
-        work = [(s, 60) for s in small] + [(s, 40) for s in four]
-        nrand, iso = 4000, "all"
+        work = [(s, 40) for s in small] + [(s, 25) for s in four]
+        nrand, iso = 700, "all"
     r.shuffle(work)
     n = common.NCPU * 4
     tasks: List[Tuple] = [("shapes", i, work[i::n], iso, with_vg) for i in range(n)]
